@@ -594,6 +594,13 @@ class Analyzer:
             return FloatV(l)
         if a is None or b is None:
             raise Unsupported('arithmetic on None')
+        # a list of numbers against a numpy scalar: numpy converts the list to an array (triangle / np.sum(triangle))
+        for x, y in ((a, b), (b, a)):
+            if isinstance(x, list) and x and all(isinstance(e, (int, float, IntV, FloatV)) and not isinstance(e, bool) for e in x) \
+                    and isinstance(y, FloatV) and op in ('Add', 'Sub', 'Mult', 'Div'):
+                from pyvc import causal_np
+                arr = causal_np.call_np(self, 'array', [x], {}, None)
+                return self.binop(op, arr if x is a else a, arr if x is b else b)
         raise Unsupported(f'{op} on {type(a).__name__}, {type(b).__name__}')
 
     def havoc_int(self, dl):
@@ -781,6 +788,11 @@ class Analyzer:
     e_GeneratorExp = e_ListComp
 
     def iterate(self, v):
+        if isinstance(v, tuple) and len(v) == 4 and v[0] == 'range':
+            # the range descriptor of call_builtin: only a concrete one can be unrolled here
+            if all(isinstance(x, int) and not isinstance(x, bool) for x in v[1:]) and len(range(*v[1:])) <= 64:
+                return list(range(*v[1:]))
+            raise Unsupported('iteration over a symbolic or long range outside a for statement')
         if isinstance(v, (list, tuple)):
             return list(v)
         if isinstance(v, range):
@@ -1945,6 +1957,21 @@ def check_result(an, v, path='value'):
     return [(path, None, 'not a series')]
 
 
+def _candle_args(an, rf):
+    """the candle matrix, plus one more matrix of the same n minutes for every further required parameter that is a candle series
+    (beta: benchmark_candles, rsmk: candles_compare) - row k of each is the candle of minute k"""
+    node = getattr(rf, 'node', None)
+    out = [an.new_arr(ArrT(IntV(N), 0, None, 0, None, '2d', 6))]
+    if node is not None:
+        a = node.args
+        required = a.args[:len(a.args) - len(a.defaults)]
+        for extra in required[1:]:
+            if 'candles' not in extra.arg:
+                raise Unsupported(f'required parameter {extra.arg}')
+            out.append(an.new_arr(ArrT(IntV(N), 0, None, 0, None, '2d', 6)))
+    return out
+
+
 def prove_causal(repo, qual, max_restarts=40, kwargs=None):
     """returns dict(proved, fields, kernels, queries, restarts) ; raises Unsupported / NotProved"""
     site_lags = {}
@@ -1952,13 +1979,13 @@ def prove_causal(repo, qual, max_restarts=40, kwargs=None):
         an = Analyzer(repo, site_lags)
         rf = repo.find(qual)
         an.st = State({}, {}, [N >= 1], None)
-        c = an.new_arr(ArrT(IntV(N), 0, None, 0, None, '2d', 6))
+        cs = _candle_args(an, rf)
         fr = Frame('<driver>')
         an.frames.append(fr)
         kw = {'sequential': True}
         kw.update(kwargs or {})
         try:
-            v = an.call_repo(Fn(rf), [c], kw)
+            v = an.call_repo(Fn(rf), cs, kw)
         except Restart:
             continue
         res = check_result(an, v)
@@ -1996,11 +2023,11 @@ def prove_one_entry_per_candle(repo, qual, kwargs=None):
     an = Analyzer(repo, {}, lengths_only=True)
     rf = repo.find(qual)
     an.st = State({}, {}, [N >= 1], None)
-    c = an.new_arr(ArrT(IntV(N), 0, None, 0, None, '2d', 6))
+    cs = _candle_args(an, rf)
     an.frames.append(Frame('<driver>'))
     kw = {'sequential': True}
     kw.update(kwargs or {})
-    v = an.call_repo(Fn(rf), [c], kw)
+    v = an.call_repo(Fn(rf), cs, kw)
     res = series_lengths(an, v)
     if not res:
         raise Unsupported('no series in the result')
